@@ -239,6 +239,32 @@ def run(ctx):
                                   {"mesh": meshes.mesh_descr(m), "element": ename, "i": int(i), "j": int(j)},
                                   {"what": "sparsity", "element": ename})
                 ctx.count("sparsity-checks")
+                # local matrices: tolocal()[k] scattered through the per-cell table gives the assembled matrix; for a SUM
+                # of elemental data tolocal() is either refused or scatters to the sum
+                try:
+                    c1 = BilinearForm(fields.generic_bilinear()).elemental(b)
+                    for lab, cc, wantA in (("elemental data", c1, A.toarray()), ("sum of two elemental data", c1 + c1,
+                                                                                 2 * A.toarray())):
+                        try:
+                            L = cc.tolocal()
+                        except NotImplementedError:
+                            ctx.count("local-matrices:refused:" + lab.split()[0])
+                            continue
+                        S = np.zeros(wantA.shape)
+                        okL = L.ndim == 3 and L.shape[1:] == (ed.shape[0], ed.shape[0]) and L.shape[0] % ed.shape[1] == 0
+                        if okL:
+                            for kk in range(L.shape[0]):
+                                k = kk % ed.shape[1]
+                                S[np.ix_(ed[:, k], ed[:, k])] += L[kk]
+                            okL = np.allclose(S, wantA, rtol=1e-12, atol=1e-12 * max(1.0, float(np.abs(wantA).max())))
+                        ctx.count("local-matrices:checked:" + lab.split()[0])
+                        if not okL:
+                            ctx.violation("local matrices (tolocal) of " + lab + " do not scatter through the per-cell "
+                                          "table to the assembled matrix", {"mesh": meshes.mesh_descr(m), "element": ename},
+                                          {"what": "local-matrices", "of": lab.split()[0]})
+                except Exception as ex:
+                    ctx.violation("local matrices raised " + exc_kind(ex), {"element": ename, "err": repr(ex)},
+                                  {"what": "raise-basis", "element": ename})
                 # the per-cell table against the two public read-outs of it: DOFs of a cell set (index array and
                 # boolean mask) and, for vector wrappers, the splitting into components (local function j carries
                 # component j % ncomp)
